@@ -280,7 +280,11 @@ def real_run(data, history, classes):
                 if sec is None:
                     raise ValueError("no UNIS")
                 editor = RichUnisEditor() if isinstance(sec, RichUnisSection) else RichUnixEditor()
-                rich = RichChkEditor().replace_chk_section(editor.upsert_unit_setting(real.unit(ed["unit"]), sec), rich)
+                if ed.get("batch"):
+                    # the list form of the same operation (what the library's examples use)
+                    rich = RichChkEditor().replace_chk_section(editor.upsert_all_unit_settings([real.unit(ed["unit"])], sec), rich)
+                else:
+                    rich = RichChkEditor().replace_chk_section(editor.upsert_unit_setting(real.unit(ed["unit"]), sec), rich)
             elif ed["op"] == "addwavs":
                 sec = find_section(rich, RichWavSection)
                 if sec is None:
@@ -638,6 +642,24 @@ def sections_of(data):
 
 def check_c04(sc, out_bytes, spec, rf, widths, out, base_info):
     view = refchk.game_view(out_bytes, spec)
+    # a hand-built unit-property table reaches the file: every set that carries an in-range slot number of its own
+    # is stored in that slot (whatever sets later edits add)
+    last_uprp = next((ed for ed in reversed(sc["history"]) if ed["op"] == "setuprp"), None)
+    has_uprp = any(n == b"UPRP" for n, _, _ in refchk.split_chunks(sc["base"]))     # (replacing a section the map lacks is a no-op)
+    if last_uprp is not None and has_uprp and not sc["kind"].startswith("degenerate"):
+        b = lambda bs: sum(1 << i for i, x in enumerate(bs) if x)  # noqa: E731
+        by_idx = {}
+        for c in last_uprp["cuwps"]:
+            by_idx.setdefault(c["idx"], []).append(c)
+        for idx, cs in sorted(by_idx.items(), key=lambda kv: (kv[0] is None, kv[0])):
+            if idx is None or not 1 <= idx <= 64 or len(cs) != 1:
+                continue
+            c = cs[0]
+            want = (b(c["vs"]) & 31, b(c["vu"]) & 63, c["hp"], c["sp"], c["ep"], c["res"], c["hangar"], b(c["flags"]) & 31)
+            if any(want) and view["cuwps"].get(idx) != want:
+                out.violations.append(dict(base_info, oracle="a unit-property set placed in the table with a slot number of its own is stored in that slot", key=None, slot=idx,
+                                           authored=want, file=view["cuwps"].get(idx)))
+                break
     trigs = [t for ed in sc["history"] if ed["op"] == "addtrigs" for t in ed["trigs"]]
     got = view["triggers"][-len(trigs):] if trigs else []
     if len(view["triggers"]) < len(trigs):
@@ -924,6 +946,30 @@ def _special_histories(author, rng, have):
             cc["idx"] = k
             copies.append(cc)
         out.append(("copies of stored unit-property sets put into the table at free slot numbers", [{"op": "setuprp", "cuwps": allstored + copies}], "single", False))
+        # ... and then a NEW set: with equal sets on several slots, every one of those slots is still occupied
+        if len(free2) >= 5:
+            fresh = Obj(k="cuwp", hp=33, sp=44, ep=55, res=777, hangar=2, flags=[True, False, False, False, True], unk=False, vs=[True] * 5 + [False], vu=[True] * 6 + [False], padding=0, idx=None)
+            e = author.entry("a", 11)
+            e["args"] = [(a, (fresh if v["k"] == "cuwp" else v)) for a, v in e["args"]]
+            out.append(("a new unit-property set on a table that holds equal sets on several slots",
+                        [{"op": "setuprp", "cuwps": allstored + copies}, {"op": "addtrigs", "trigs": [{"conds": [], "acts": [e], "players": [2]}]}], "single", False))
+    # one unit's setting authored twice through the list form of the upsert: the later values are the ones saved
+    if have["unis"]:
+        u1 = author.unit(have["unis"])
+        u2 = dict(author.unit(have["unis"]), unit=u1["unit"])
+        u2["weapons"] = [(w, (b + 7) % 65536, (g + 1) % 65536) for (w, b, g) in u1["weapons"]]
+        u2["shield"], u2["armor"], u2["default"] = (u1["shield"] + 1) % 65536, (u1["armor"] + 1) % 256, False
+        out.append(("a unit setting replaced through the list form of the upsert", [{"op": "upsert", "unit": u1, "batch": True}, {"op": "upsert", "unit": u2, "batch": True}], "single", False))
+    # two EQUAL sets placed on two free slots, neither referenced by any trigger, then a new third set through a
+    # trigger: each of the three has a slot of its own
+    if len(free2) >= 6 and b"UPRP" in author.chunks:
+        tw = lambda k: Obj(k="cuwp", hp=12, sp=34, ep=56, res=4242, hangar=1, flags=[False, True, False, False, False], unk=False, vs=[True] * 5 + [False], vu=[True] * 6 + [False], padding=0, idx=k)  # noqa: E731
+        third = Obj(k="cuwp", hp=21, sp=43, ep=65, res=2424, hangar=3, flags=[True, False, False, False, False], unk=False, vs=[True] * 5 + [False], vu=[True] * 6 + [False], padding=0, idx=None)
+        e = author.entry("a", 11)
+        e["args"] = [(a, (third if v["k"] == "cuwp" else v)) for a, v in e["args"]]
+        stored_all = [Obj(**{k2: (list(v2) if isinstance(v2, list) else v2) for k2, v2 in c.items()}) for c in pool2]
+        out.append(("equal sets on two slots nobody refers to, then a new set",
+                    [{"op": "setuprp", "cuwps": stored_all + [tw(free2[0]), tw(free2[-1])]}, {"op": "addtrigs", "trigs": [{"conds": [], "acts": [e], "players": [1]}]}], "single", False))
     # the same trigger added three times (hyper triggers): all three must be in the file
     t = author.trigger(nc=1, na=3, raw_p=0)
     out.append(("three identical triggers in one call", [{"op": "addtrigs", "trigs": [t, t, t]}], "single", False))
@@ -1105,6 +1151,24 @@ def run(prop, tier, seed):
             for item in degenerate_histories(author, rng):
                 what, hist = item[0], item[1]
                 scenarios.append({"tag": tag, "base": data, "base_out": base_out, "history": hist, "mode": item[2] if len(item) > 2 else "single", "kind": "degenerate:" + what})
+    # editor objects reused across calls (real code only, judged by the independent reader)
+    if prop in ("C07", "C09", "C04"):
+        done = 0
+        for tag, data in base_maps(rng, spec, tier):
+            if len(data) > 500000 or done >= 3:
+                continue
+            try:
+                probs = editor_reuse_scenario(data, spec)
+            except Exception as ex:  # noqa: BLE001
+                probs = ["the history raised %s" % err_class(ex)]
+            if probs is None:
+                continue
+            done += 1
+            out.case("editor-object-reuse", ("reuse:" + tag).encode() + data[:64], sample={"base": tag, "history": "one RichMrgnEditor: add X ; trigger with new Y ; save ; reload ; add Z", "problems": probs[:2]})
+            for pr in probs[:2]:
+                out.violations.append({"tag": tag, "kind": "editor object reused across calls", "history": "one RichMrgnEditor object: add_locations([X]) ; add a trigger pinging a new location Y ; save ; reload ; add_locations([Z])",
+                                       "oracle": "every location keeps a slot of its own and every reference its target, however editor objects are reused", "problem": pr, "key": None,
+                                       "hex": data.hex() if len(data) < 40000 else None, "fixture": tag if tag.startswith("fixture") else None})
     lines = [scenario_line(sc) for sc in scenarios]
     model = None
     try:
@@ -1138,6 +1202,7 @@ def run(prop, tier, seed):
             # (what a shared weapon record does to unit settings is C04's business, not an allocation matter)
             n0 = len(out.violations)
             check_c04(sc, res, spec, rf, widths, out, base_info)
+            check_c07(sc, sc["base_out"], res, spec, out, base_info)      # ... and no slot in use is handed out again
             out.violations[n0:] = [v for v in out.violations[n0:] if v.get("key") is None]
         if prop == "C10" and not sc["kind"].startswith("degenerate"):
             # whatever edits are made elsewhere: unmodelled sections of the unedited save sit at the same index, identical
@@ -1152,6 +1217,63 @@ def run(prop, tier, seed):
             for p in [p for p in refchk.struct_valid(res, spec) if p not in before or p.startswith("UPUS marks")][:3]:
                 out.violations.append(dict(base_info, oracle="every emitted CHK is structurally valid", problem=p, key=None))
     return out
+
+
+def editor_reuse_scenario(data, spec):
+    """real code only: ONE RichMrgnEditor object serves two calls between which the map gained a location by
+    another route (a trigger's new location, placed by the save).  Returns a list of problems judged on the
+    saved bytes by the independent reader (None = scenario not applicable to this map)."""
+    from richchk.editor.richchk.rich_chk_editor import RichChkEditor
+    from richchk.editor.richchk.rich_mrgn_editor import RichMrgnEditor
+    from richchk.editor.richchk.rich_trig_editor import RichTrigEditor
+    from richchk.model.richchk.mrgn.rich_location import RichLocation
+    from richchk.model.richchk.mrgn.rich_mrgn_section import RichMrgnSection
+    from richchk.model.richchk.str.rich_string import RichString
+    from richchk.model.richchk.trig.actions.minimap_ping_action import MinimapPingAction
+    from richchk.model.richchk.trig.conditions.always_condition import AlwaysCondition
+    from richchk.model.richchk.trig.player_id import PlayerId
+    from richchk.model.richchk.trig.rich_trig_section import RichTrigSection
+    from richchk.model.richchk.trig.rich_trigger import RichTrigger
+
+    cio, rio = shared_io()
+    base_view = refchk.game_view(data, spec)
+    if len(base_view["locs"]) > 250:
+        return None
+    rich = rio.decode_chk(cio.decode_chk_binary_data(data))
+    mrgn, trig = find_section(rich, RichMrgnSection), find_section(rich, RichTrigSection)
+    if mrgn is None or trig is None:
+        return None
+    rects = {"X": (8, 8, 40, 40), "Y": (48, 8, 80, 40), "Z": (88, 8, 120, 40)}
+    mk = lambda k: RichLocation(*rects[k], RichString("reuse " + k))  # noqa: E731
+    ed = RichMrgnEditor()
+    m1, _ = ed.add_locations([mk("X")], mrgn)
+    rich = RichChkEditor().replace_chk_section(m1, rich)
+    t = RichTrigger(_conditions=[AlwaysCondition()], _actions=[MinimapPingAction(_location=mk("Y"))], _players={PlayerId.PLAYER_1})
+    rich = RichChkEditor().replace_chk_section(RichTrigEditor.add_triggers([t], find_section(rich, RichTrigSection)), rich)
+    rich2 = rio.decode_chk(cio.decode_chk_binary_data(cio.encode_chk_to_bytes(rio.encode_chk(rich))))
+    m2, _ = ed.add_locations([mk("Z")], find_section(rich2, RichMrgnSection))      # the SAME editor object
+    rich2 = RichChkEditor().replace_chk_section(m2, rich2)
+    out = cio.encode_chk_to_bytes(rio.encode_chk(rich2))
+    v = refchk.game_view(out, spec)
+    probs = []
+    where = {}
+    for k, r in rects.items():
+        slots = [s for s, c in v["locs"].items() if tuple(c[:4]) == r]
+        if len(slots) != 1:
+            probs.append("location %s %r is stored %d times (slots %s)" % (k, r, len(slots), slots))
+        else:
+            where[k] = slots[0]
+    for s, c in base_view["locs"].items():
+        if v["locs"].get(s) != c:
+            probs.append("pre-existing location slot %d changed: %r -> %r" % (s, c, v["locs"].get(s)))
+            break
+    # the trigger added in between still pings Y
+    L = refchk.layouts_of(spec)
+    trigs = [t2 for n, _, p in refchk.split_chunks(out) if n == b"TRIG" for t2 in refchk.fields_of(L[b"TRIG"], p)["triggers"]]
+    pings = [a["_location_id"] for t2 in trigs[-1:] for a in t2["acts"] if a["_action_id"] == 28]
+    if "Y" in where and pings != [where["Y"]]:
+        probs.append("the trigger authored with location Y refers to slot %s, Y is in slot %s" % (pings, where.get("Y")))
+    return probs
 
 
 def equalish(a, g):
